@@ -20,13 +20,20 @@ def summ(v):
     return type(v).__name__
 
 
+def norm(call, r):
+    """a reader's not-found outcomes are one class (the property: 'one complete version or a not-found error')"""
+    if r[0] == "exc" and getattr(call, "readonly", False) and r[1] in ("ValueError", "FileNotFoundError"):
+        return ("exc", "not-found")
+    return r
+
+
 def run_call(w, s, call):
     try:
-        return ("ok", summ(call.run(w, s)))
+        return norm(call, ("ok", summ(call.run(w, s))))
     except symfs.Crash:
         raise
     except Exception as e:   # noqa
-        return ("exc", type(e).__name__)
+        return norm(call, ("exc", type(e).__name__))
 
 
 def build_pinned(ps, w, init):
@@ -92,7 +99,8 @@ def run_schedule(ps, w, init, program, bound, allowed, pinned=None):
     finally:
         sched.CUR[0] = None
         F.on_point = None
-    res = tuple(("ok", t.res[1]) if t.res and t.res[0] == "ok" else ("exc", t.res[1] if t.res else "none") for t in ts)
+    res = tuple(norm(c, ("ok", t.res[1]) if t.res and t.res[0] == "ok" else ("exc", t.res[1] if t.res else "none"))
+                for c, t in zip(program, ts))
     bad = []
     if status != "done":
         at = [(t.name, t.at[0]) for t in ts if not t.done or (t.res and t.res[0] == "killed")]
